@@ -138,6 +138,40 @@ theorem AllCalls.after_eq {Ok : α → Prop} {p : Prog α} (env : Env)
     have := ih (exec env fs c).2 (hp.2 _ (answer_exec env fs c)) (exec env fs c).1
     rw [this, h1]
 
+/-- Every result of every healthy run satisfies what `AllCallsR` promises of all results. -/
+theorem AllCallsR.result {P : Call → Prop} {Ok : α → Prop} {p : Prog α} (hp : AllCallsR P Ok p)
+    (env : Env) (fs : FS) : Ok (run env p fs).1 := by
+  induction p generalizing fs with
+  | done a => exact hp
+  | sys c k ih =>
+    simp only [run]
+    exact ih _ (hp.2 _ (answer_exec env fs c)) _
+
+/-- … and of every run under a fault plan. -/
+theorem AllCallsR.resultFault {P : Call → Prop} {Ok : α → Prop} {p : Prog α}
+    (hp : AllCallsR P Ok p) (env : Env) (plan : Nat → Option Fault) (fs : FS) (i : Nat) :
+    Ok (runFault env plan p fs i).1 := by
+  induction p generalizing fs i with
+  | done a => exact hp
+  | sys c k ih =>
+    simp only [runFault]
+    split
+    · exact ih _ (hp.2 _ (answer_err _ _)) _ _
+    · exact ih _ (hp.2 _ (answer_exec env fs c)) _ _
+
+/-- Running a sequential composition. -/
+theorem run_bind (env : Env) (p : Prog α) (f : α → Prog β) (fs : FS) :
+    run env (Prog.bind p f) fs =
+      ((run env (f (run env p fs).1) (run env p fs).2.1).1,
+       (run env (f (run env p fs).1) (run env p fs).2.1).2.1,
+       (run env p fs).2.2 ++ (run env (f (run env p fs).1) (run env p fs).2.1).2.2) := by
+  induction p generalizing fs with
+  | done a => simp [run]
+  | sys c k ih =>
+    simp only [bind_sys, run]
+    rw [ih]
+    simp
+
 /-! ### the demonic weakest precondition -/
 
 /-- The outcomes one call can have: it succeeds (healthy semantics), or it fails with any error
